@@ -66,6 +66,13 @@ def main():
         names = [n for n in names if any(a in n for a in args)]
     res = json.load(open(RESULTS)) if os.path.exists(RESULTS) else {}
     jobs = [(n, None) for n in names]
+    # a seeded change may concern further properties: seeded/<name>/also.txt lists them (one id per line); the expectation
+    # (caught / silent) is the same as for the property in its name
+    for n in names:
+        ap = os.path.join(SEEDED, n, "also.txt")
+        if os.path.exists(ap):
+            for pid in open(ap).read().split():
+                jobs.append((n, pid))
     # the Rect.Contains revert concerns the quadtree as well
     if "revert-c18-rect-contains" in names:
         jobs.append(("revert-c18-rect-contains", "C07"))
